@@ -31,7 +31,7 @@ func init() { vfRegister("VerifC17_concurrent", VerifC17_concurrent) }
 func VerifC17_concurrent() {
 	h := h2cNewConn()
 	cc := h.cc
-	N := 2 + vfTier()
+	const N = 2 // (3 requests with <= 1 preemption: > 536k paths in 400 s on 6 workers, not finished: outside both tiers)
 	cc.strictMaxConcurrentStreams = vfChoice("strict", 2) == 1
 	m := vfLen("limit", 1, N)
 	if err := h.rl.processSettingsNoWrite(h2cSettingsFrame(Setting{SettingMaxConcurrentStreams, uint32(m)})); err != nil {
